@@ -200,7 +200,8 @@ pub(crate) fn validate_operation(
 ///    statically skipped via `@skip`/`@include` must be disabled via an
 ///    `if` argument set to `false` or to a variable.
 pub(crate) fn validate_defer(document: &ExecutableDocument, diagnostics: &mut DiagnosticList) {
-    validate_defer_labels(document, diagnostics);
+    // Set when a walk stops at the recursion limit and leaves part of the document unchecked.
+    let mut limit_reached = validate_defer_labels(document, diagnostics).is_err();
 
     for operation in document.operations.iter() {
         // `@defer` on a root selection is only forbidden for mutation and
@@ -208,44 +209,58 @@ pub(crate) fn validate_defer(document: &ExecutableDocument, diagnostics: &mut Di
         if matches!(operation.operation_type, ast::OperationType::Query) {
             continue;
         }
-        let _ = forbid_defer_on_root(
+        limit_reached |= forbid_defer_on_root(
             document,
             &operation.selection_set,
             operation.operation_type,
             diagnostics,
             &mut HashSet::default(),
             DepthCounter::new().with_limit(500).guard(),
-        );
+        )
+        .is_err();
         if operation.is_subscription() {
-            let _ = forbid_unconditional_defer(
+            limit_reached |= forbid_unconditional_defer(
                 document,
                 &operation.selection_set,
                 diagnostics,
                 &mut HashSet::default(),
                 DepthCounter::new().with_limit(500).guard(),
-            );
+            )
+            .is_err();
         }
+    }
+
+    // The error has no location: there is nothing to add if another walk of this document
+    // already reported it.
+    if limit_reached && !diagnostics.has_recursion_error() {
+        diagnostics.push(None, DiagnosticData::RecursionError {});
     }
 }
 
-fn validate_defer_labels(document: &ExecutableDocument, diagnostics: &mut DiagnosticList) {
+fn validate_defer_labels(
+    document: &ExecutableDocument,
+    diagnostics: &mut DiagnosticList,
+) -> Result<(), RecursionLimitError> {
     let mut seen: HashMap<String, Option<SourceSpan>> = HashMap::default();
 
     let walk = |selection_set: &executable::SelectionSet,
                 diagnostics: &mut DiagnosticList,
                 seen: &mut HashMap<String, Option<SourceSpan>>| {
-        let _ = walk_defers_in_selection_set(
+        walk_defers_in_selection_set(
             selection_set,
             &mut |directive| check_defer_label(directive, diagnostics, seen),
             DepthCounter::new().with_limit(500).guard(),
-        );
+        )
     };
+    // Keep checking the other definitions after a walk reaches the recursion limit.
+    let mut result = Ok(());
     for operation in document.operations.iter() {
-        walk(&operation.selection_set, diagnostics, &mut seen);
+        result = walk(&operation.selection_set, diagnostics, &mut seen).and(result);
     }
     for fragment in document.fragments.values() {
-        walk(&fragment.selection_set, diagnostics, &mut seen);
+        result = walk(&fragment.selection_set, diagnostics, &mut seen).and(result);
     }
+    result
 }
 
 fn check_defer_label(
